@@ -1,11 +1,88 @@
 /-
-  Hive.Monitor — the executable invariants evaluated on *implementation* states.
-  Each function returns the list of violations (empty = holds), tagged with the property id.
+  Hive.Monitor — evaluation of the invariants of `Hive.Inv` on *implementation* states, with
+  a message naming the offending entity. Output strings start with the property id.
 -/
-import Hive.Activity
+import Hive.Inv
+import Hive.Canon
 
 namespace Hive
 
-def monitorAll (_env : Env) (_s : Sim) : List String := []
+def viol02 (s : Sim) : List String :=
+  (s.stations.flatMap fun st => (st.plugs.filter (fun cs => !plugOk s st cs)).map fun cs =>
+    s!"C02/plug-count| station {st.id} plug {cs.id}: total={cs.total} avail={cs.avail} enq={cs.enq} charging={s.vehicles.countP (holdsPlug s st.id cs.id)} queueing={s.vehicles.countP (queuesFor st.id cs.id)}") ++
+  ((s.bases.filter (fun b => !baseOk s b)).map fun b =>
+    s!"C02/stall-count| base {b.id}: total={b.total} avail={b.avail} parked={s.vehicles.countP (holdsStall b.id)}")
+
+def viol07 (s : Sim) : List String :=
+  (s.vehicles.filter (fun v => !locOk s v)).map fun v => s!"C07/{v.act.kind}| vehicle {v.id} in {v.act.kind} at cell {v.pos.cell}"
+
+def viol10 (s : Sim) : List String :=
+  ((s.vehicles.filter (fun v => !accessOk s v)).map fun v => s!"C10/{v.act.kind}| vehicle {v.id} in {v.act.kind} without access") ++
+  ((s.vehicles.filter (fun v => !accessBaseStationOk s v)).map fun v =>
+    s!"C10/ChargingBase-station| vehicle {v.id} in ChargingBase on a station that does not grant access")
+
+def viol17 (s : Sim) : List String :=
+  (s.requests.filter (fun r => !dispatchOk s r)).map fun r => s!"C17/stale-dispatch| request {r.id} records vehicle {r.dispVeh}"
+
+def viol08 (parent : Cell → Cell) (s : Sim) : List String :=
+  (if s.vIdx.ok parent (s.vehicles.map fun v => (v.id, v.pos.cell)) then [] else ["C08/vehicle-index| vehicle index disagrees with entities"]) ++
+  (if s.rIdx.ok parent (s.requests.map fun r => (r.id, r.pos.cell)) then [] else ["C08/request-index| request index disagrees with entities"]) ++
+  (if s.sIdx.ok parent (s.stations.map fun x => (x.id, x.pos.cell)) then [] else ["C08/station-index| station index disagrees with entities"]) ++
+  (if s.bIdx.ok parent (s.bases.map fun b => (b.id, b.pos.cell)) then [] else ["C08/base-index| base index disagrees with entities"])
+
+def viol04 (cap : MechId → Option Rat) (s : Sim) : List String :=
+  (s.vehicles.filter (fun v => !energyOk cap v)).map fun v => s!"C04/bounds| vehicle {v.id} level out of bounds"
+
+/-- all state monitors -/
+def monitorAll (env : Env) (s : Sim) : List String :=
+  viol02 s ++ viol07 s ++ viol08 env.parent s ++ viol10 s ++ viol17 s
+
+/-! ### step monitors (pre-state, post-state, events of one phase) on implementation data -/
+
+def sumQ (xs : List Rat) : Rat := xs.foldl (· + ·) 0
+
+def absTol (scale : Rat) : Rat := (1 / 1000000000 : Rat) * max 1 scale
+
+/-- C04 ledger per vehicle and phase: `Δlevel = Δgained − Δexpended`, totals never decrease -/
+def viol04Step (pre post : Sim) : List String :=
+  post.vehicles.flatMap fun v =>
+    match pre.vehicle? v.id with
+    | none => []
+    | some p =>
+      let dl := v.en.level - p.en.level
+      let dg := v.en.gained - p.en.gained
+      let dx := v.en.expended - p.en.expended
+      let tol := absTol (max (ratAbs v.en.level) (max (ratAbs v.en.gained) (ratAbs v.en.expended)))
+      (if ratAbs (dl - (dg - dx)) ≤ tol then [] else [s!"C04/ledger| vehicle {v.id}: level changed by {Val.show (.q dl)} but gained-expended changed by {Val.show (.q (dg - dx))}"]) ++
+      (if dg < -tol || dx < -tol then [s!"C04/totals-decrease| vehicle {v.id}: running totals decreased"] else [])
+
+/-- C05 per phase: energy gained by vehicles = energy dispensed by stations (per type);
+    money paid by vehicles for charging = money received by stations; each charge event is priced
+    at the pre-state tariff -/
+def viol05Step (mechElectric : MechId → Bool) (pre post : Sim) (evs : List Event) : List String :=
+  let dGain (el : Bool) : Rat := sumQ (post.vehicles.map fun v =>
+    match pre.vehicle? v.id with
+    | some p => if mechElectric v.mech == el then v.en.gained - p.en.gained else 0
+    | none => 0)
+  let dDisp (el : Bool) : Rat := sumQ (post.stations.map fun st =>
+    match pre.station? st.id with
+    | some p => if el then st.dispE - p.dispE else st.dispG - p.dispG
+    | none => 0)
+  let fares : Rat := sumQ (evs.map fun e => match e with | .pickup _ _ f _ => f | _ => 0)
+  let paid : Rat := sumQ (evs.map fun e => match e with | .charge _ _ _ _ p => p | _ => 0)
+  let dVehBal : Rat := sumQ (post.vehicles.map fun v => match pre.vehicle? v.id with | some p => v.balance - p.balance | none => 0)
+  let dStnBal : Rat := sumQ (post.stations.map fun st => match pre.station? st.id with | some p => st.balance - p.balance | none => 0)
+  let scale := max (ratAbs (dGain true)) (max (ratAbs (dGain false)) (max (ratAbs fares) (max (ratAbs paid) (max (ratAbs dVehBal) (ratAbs dStnBal)))))
+  let tol := absTol scale
+  (if ratAbs (dGain true - dDisp true) ≤ tol then [] else [s!"C05/energy-electric| electric energy gained {Val.show (.q (dGain true))} ≠ dispensed {Val.show (.q (dDisp true))}"]) ++
+  (if ratAbs (dGain false - dDisp false) ≤ tol then [] else [s!"C05/energy-gasoline| gasoline gained {Val.show (.q (dGain false))} ≠ dispensed {Val.show (.q (dDisp false))}"]) ++
+  (if ratAbs (dVehBal - (fares - paid)) ≤ tol then [] else [s!"C05/vehicle-balance| vehicle balances changed by {Val.show (.q dVehBal)} but fares-payments = {Val.show (.q (fares - paid))}"]) ++
+  (if ratAbs (dStnBal - paid) ≤ tol then [] else [s!"C05/station-balance| station balances changed by {Val.show (.q dStnBal)} but payments = {Val.show (.q paid)}"]) ++
+  (evs.flatMap fun e => match e with
+    | .charge v sid cid amount price =>
+      match (pre.station? sid).bind (·.plug? cid) with
+      | some cs => if ratAbs (price - amount * cs.price) ≤ absTol (ratAbs price) then [] else [s!"C05/tariff| charge event of vehicle {v}: price {Val.show (.q price)} ≠ amount × tariff {Val.show (.q (amount * cs.price))}"]
+      | none => [s!"C05/unknown-plug| charge event of vehicle {v} at unknown plug"]
+    | _ => [])
 
 end Hive
